@@ -22,9 +22,9 @@ def main():
             rc = mod.replay(ctx, a.replay)
             ctx.cleanup()
             sys.exit(rc)
-        ok, log = core.static_build(ctx)
-        ctx.oblige("static-build:make", ok, log)
-        hits = core.forbidden_scan()
+        ok, log = core.static_build(ctx, target="Props/%s.vo" % pid)
+        ctx.oblige("static-build:make Props/%s.vo" % pid, ok, log)
+        hits = core.forbidden_scan("Props/%s.v" % pid)
         ctx.oblige("no-admit-no-axiom-grep", not hits, "; ".join(hits[:10]))
         ctx.trusted.append("Coq 8.16.1 kernel via coqc (full .vo build), vm_compute for tie side conditions and "
                            "correspondence evaluation; no native_compute")
